@@ -57,7 +57,7 @@ Fixpoint munch (rs : list re) (inp : list byte) (n : nat) (best : option (nat * 
 
 (* derived forms used by the generated rule table *)
 Definition plus r := Seq r (Star r).
-Definition opt r := Alt r Eps.
+Definition optional r := Alt r Eps.   (* r? — not named opt: extraction would rename the option type of the store *)
 Fixpoint rep_exact (n : nat) (r : re) : re := match n with O => Eps | S k => Seq r (rep_exact k r) end.
 Fixpoint rep_upto (n : nat) (r : re) : re := match n with O => Eps | S k => Alt Eps (Seq r (rep_upto k r)) end.
 Definition rep (m : nat) (n : option nat) (r : re) : re :=      (* r{m,n} ; n = None means {m,} *)
